@@ -621,6 +621,7 @@ func c08Contended(events []string) bool {
 func checkC08(c *Ctx) {
 	duplexStress(c, "C08")
 	sealBurst(c, "C08")
+	stackedWriters(c, "C08")
 	c08CloseRace(c)
 	c.SetRule("one case = one schedule of 2..6 concurrent Connection.Write calls on a real hap.Connection (forced: enumerated " +
 		"choice sequences over the stop points before-Write / in-Encrypt / in-socket-write; free: Gosched/sleep noise, optional " +
